@@ -34,7 +34,7 @@ type c12MapCase struct {
 type c12IOCase struct {
 	Cmd   c12Cmd `json:"cmd"`
 	In    string `json:"in"`  // stdin | dash | file
-	Out   string `json:"out"` // stdout | file
+	Out   string `json:"out"` // stdout | file | existing-file
 	Debug bool   `json:"debug"`
 }
 
@@ -226,9 +226,15 @@ func c12IOEval(e *Env, c c12IOCase, base *runOut) {
 		stdin = "this is not the input"
 	}
 	outFile := ""
-	if c.Out == "file" {
+	if c.Out == "file" || c.Out == "existing-file" {
 		outFile = filepath.Join(dir, "out.bin")
 		args = append(args, "-o", outFile)
+		if c.Out == "existing-file" {
+			// the -o file already exists and is longer than any result
+			if err := os.WriteFile(outFile, bytes.Repeat([]byte("stale contents of an earlier run\n"), 4000), 0o644); err != nil {
+				panic(err)
+			}
+		}
 	}
 	if c.Debug {
 		args = append(args, "--debug")
@@ -488,7 +494,7 @@ func runC12(e *Env) {
 			ins = []string{"stdin", "dash", "file"}
 		}
 		for _, in := range ins {
-			for _, out := range []string{"stdout", "file"} {
+			for _, out := range []string{"stdout", "file", "existing-file"} {
 				for _, dbg := range []bool{false, true} {
 					ios = append(ios, c12IOCase{c, in, out, dbg})
 				}
@@ -500,7 +506,7 @@ func runC12(e *Env) {
 		e.R.Trace(1)
 		e.R.NonTrivial("io" + fmt.Sprint(i))
 	})
-	e.R.AddPart(ev.Part{Name: "io-paths", Enumerated: "every data-producing command x input by {stdin, -, FILE} (where it reads one) x output to {stdout, -o file} x --debug {off, on}: result bytes and status equal to stdin->stdout", Executions: int64(len(ios)), Exhaustive: true})
+	e.R.AddPart(ev.Part{Name: "io-paths", Enumerated: "every data-producing command x input by {stdin, -, FILE} (where it reads one) x output to {stdout, -o new file, -o existing longer file} x --debug {off, on}: result bytes and status equal to stdin->stdout", Executions: int64(len(ios)), Exhaustive: true})
 
 	// ---- (4) supplementary, not deciding: repetition under GOMAXPROCS 1, 2, 16
 	var reps []c12Cmd
